@@ -11,9 +11,11 @@ import (
 	"runtime/pprof"
 	"sort"
 	"strconv"
+	"strings"
 	"syscall"
 	"testing"
 	"testing/synctest"
+	"time"
 
 	"verifsim/core"
 	"verifsim/props"
@@ -140,6 +142,7 @@ func TestSim(t *testing.T) {
 		pprof.StartCPUProfile(f)
 		defer pprof.StopCPUProfile()
 	}
+	go stuckMonitor() // started outside the bubble: real time
 	synctest.Test(t, func(t *testing.T) {
 		switch mode {
 		case "explore":
@@ -157,6 +160,56 @@ func TestSim(t *testing.T) {
 		}
 		os.Exit(0)
 	})
+}
+
+// stuckMonitor: the scheduler made no step for 20 s of real time. The usual reason is a goroutine of
+// the system under test blocked on a sync.Mutex / RWMutex whose holder waits for simulated time or for
+// the scheduler - that is not a quiescent state, so the bubble (and the fake clock) cannot advance. The
+// blocked lock acquisition is reported (the driver turns it into a violation record); anything else is
+// left to the driver's watchdog.
+func stuckMonitor() {
+	last, same := int64(-1), 0
+	for {
+		time.Sleep(2 * time.Second)
+		p := core.Progress.Load()
+		if p == last && p > 0 {
+			same++
+		} else {
+			same = 0
+		}
+		last = p
+		if same < 10 {
+			continue
+		}
+		buf := make([]byte, 4<<20)
+		buf = buf[:runtime.Stack(buf, true)]
+		site := ""
+		for _, g := range strings.Split(string(buf), "\n\n") {
+			if !strings.Contains(g, "synctest bubble") || !(strings.Contains(g, "sync.(*Mutex).Lock") || strings.Contains(g, "sync.(*RWMutex).")) {
+				continue
+			}
+			for _, l := range strings.Split(g, "\n") {
+				if strings.HasPrefix(l, "github.com/cloudwego/hertz/") {
+					site = l
+					if i := strings.LastIndexByte(l, '('); i > 0 {
+						site = l[:i] // drop the argument list, keep receivers like (*Engine)
+					}
+					if i := strings.LastIndexByte(site, '/'); i >= 0 {
+						site = site[i+1:]
+					}
+					break
+				}
+			}
+			if site != "" {
+				break
+			}
+		}
+		if out := os.Getenv("VSIM_STUCK"); out != "" && site != "" {
+			os.WriteFile(out, []byte(site), 0o644)
+		}
+		fmt.Fprintf(os.Stderr, "STUCK: no scheduler step for 20s of real time; blocked lock acquisition in hertz: %q\n", site)
+		os.Exit(3)
+	}
 }
 
 func explore() {
